@@ -68,12 +68,27 @@ func (c *Ctx) heapWFAxiom(key, name string) string {
 	return fmt.Sprintf("(forall ((o Int) (i Int)) (! (wfslice (select (select %s o) i)) :pattern ((select (select %s o) i))))", name, name)
 }
 
+// wantSliceWF adds (once) the well-formedness axiom for a heap of slices
+// that a spec expression reads.
+func (c *Ctx) wantSliceWF(key, name string) {
+	if key != "Slice" || c.declared["slicewf:"+name] {
+		return
+	}
+	if _, isDef := c.defs[name]; isDef {
+		return
+	}
+	if _, isDef := c.heapDefs[name]; isDef {
+		// derived heaps: use the axiom of the heap they are built from
+		c.wantSliceWF(key, c.heapDefs[name].base)
+		return
+	}
+	c.declared["slicewf:"+name] = true
+	c.lateAxioms = append(c.lateAxioms, "(assert "+c.heapWFAxiom(key, name)+")")
+}
+
 // newHeapConst declares a havocked heap.
 func (c *Ctx) newHeapConst(key, prefix string) string {
 	n := c.declConst(heapKey(key)+prefix, c.heapSortOf(key))
-	if ax := c.heapWFAxiom(key, n); ax != "" {
-		c.assume(ax)
-	}
 	return n
 }
 
@@ -85,9 +100,6 @@ func (c *Ctx) heap(st *State, elemSort string) string {
 	name := heapKey(elemSort) + "_0"
 	if !c.declared["heap0:"+name] {
 		c.declOnce("heap0:"+name, fmt.Sprintf("(declare-fun %s () %s)", name, c.heapSortOf(elemSort)))
-		if ax := c.heapWFAxiom(elemSort, name); ax != "" {
-			c.decl("(assert " + ax + ")")
-		}
 	}
 	return name
 }
@@ -134,6 +146,7 @@ type frame struct {
 	recoverTerm string
 	lastNext map[ssa.Value]string
 	safeDone map[string][]*ssa.BasicBlock
+	frameDone map[string]bool
 	depth    int
 	top      bool
 	entry    *State
@@ -185,10 +198,21 @@ func frameFormula(key, hNew, hOld, lower, bound string, mods []modItem, isMap bo
 	return fmt.Sprintf("(forall ((o Int) (i Int)) (! (=> %s (= (select (select %s o) i) (select (select %s o) i))) :pattern ((select (select %s o) i))))", and(guard...), hNew, hOld, hNew)
 }
 
+// unsup: a construct outside the supported subset. It is an engine error only
+// if it is reachable: an obligation "unsupported" (claim: false under the
+// current reach condition) is generated; if that is proved the construct is
+// dead code under the contract's precondition.
 func (fr *frame) unsup(format string, args ...interface{}) {
 	msg := fmt.Sprintf(format, args...)
 	fr.unsupported = append(fr.unsupported, msg)
-	fr.c.errs = append(fr.c.errs, funcDisplay(fr.fn)+": "+msg)
+	if fr.curReach == "" || fr.curReach == "true" || fr.cur == nil {
+		fr.c.errs = append(fr.c.errs, funcDisplay(fr.fn)+": "+msg)
+		return
+	}
+	saved := fr.sites
+	o := fr.oblige("unsupported", fmt.Sprintf("b%d", fr.cur.Index), nil, "false", "construct outside the supported subset must be unreachable: "+msg, 0)
+	o.Unsupported = msg
+	fr.sites = saved
 }
 
 // ---------- obligations ----------
@@ -499,7 +523,7 @@ func (fr *frame) allocObj(st *State, what string) string {
 // ---------- running a function ----------
 
 func (c *Ctx) newFrame(fn *ssa.Function, contract *FuncContract, depth int) *frame {
-	fr := &frame{c: c, fn: fn, contract: contract, vals: map[ssa.Value]Val{}, reach: map[*ssa.BasicBlock]string{}, outSt: map[*ssa.BasicBlock]*State{}, outReach: map[*ssa.BasicBlock]string{}, edge: map[[2]int]string{}, loops: map[*ssa.BasicBlock]*loopInfo{}, depth: depth, sites: map[string]int{}, params: map[string]Val{}, debug: map[string][]*ssa.DebugRef{}, panicOK: "false", lastNext: map[ssa.Value]string{}}
+	fr := &frame{c: c, fn: fn, contract: contract, vals: map[ssa.Value]Val{}, reach: map[*ssa.BasicBlock]string{}, outSt: map[*ssa.BasicBlock]*State{}, outReach: map[*ssa.BasicBlock]string{}, edge: map[[2]int]string{}, loops: map[*ssa.BasicBlock]*loopInfo{}, depth: depth, sites: map[string]int{}, params: map[string]Val{}, debug: map[string][]*ssa.DebugRef{}, panicOK: "false", lastNext: map[ssa.Value]string{}, frameDone: map[string]bool{}}
 	for _, b := range fn.Blocks {
 		for _, ins := range b.Instrs {
 			if d, ok := ins.(*ssa.DebugRef); ok {
@@ -1228,7 +1252,7 @@ func (fr *frame) execIndexAddr(x *ssa.IndexAddr, st *State) {
 	switch bt := x.X.Type().Underlying().(type) {
 	case *types.Slice:
 		fr.safety("index", fmt.Sprintf("(and (>= %s 0) (< %s %s))", idx.T, idx.T, c.acc("slen", base.T)), "index out of range: "+c.prog.sourceLine(c.prog.Fset.Position(x.Pos())), x.Pos())
-		fr.vals[x] = Val{T: c.define("ia", "Ptr", fmt.Sprintf("(mkptr %s (+ %s %s))", c.acc("sobj", base.T), c.acc("soff", base.T), idx.T)), Ty: x.Type()}
+		fr.vals[x] = Val{T: c.define("ia", "Ptr", fmt.Sprintf("(mkptr %s %s)", c.acc("sobj", base.T), addOff(c.acc("soff", base.T), idx.T))), Ty: x.Type()}
 	case *types.Pointer:
 		at := bt.Elem().Underlying().(*types.Array)
 		fr.safety("index", fmt.Sprintf("(and (>= %s 0) (< %s %d))", idx.T, idx.T, at.Len()), "array index out of range", x.Pos())
@@ -1237,7 +1261,7 @@ func (fr *frame) execIndexAddr(x *ssa.IndexAddr, st *State) {
 			return
 		}
 		// heap array object in element heap
-		fr.vals[x] = Val{T: c.define("ia", "Ptr", fmt.Sprintf("(mkptr %s (+ %s %s))", c.acc("pobj", base.T), c.acc("pidx", base.T), idx.T)), Ty: x.Type()}
+		fr.vals[x] = Val{T: c.define("ia", "Ptr", fmt.Sprintf("(mkptr %s %s)", c.acc("pobj", base.T), addOff(c.acc("pidx", base.T), idx.T))), Ty: x.Type()}
 	default:
 		fr.unsup("IndexAddr on %s", x.X.Type())
 	}
@@ -1421,17 +1445,17 @@ func (c *Ctx) goEq(t types.Type, a, b string) string {
 		}
 	case *types.Slice:
 		// only comparison with nil is legal
-		if a == "nilslice" {
+		if a == "nilslice" || a == "(mkslice 0 0 0 0)" {
 			return fmt.Sprintf("(= (sobj %s) 0)", b)
 		}
-		if b == "nilslice" {
+		if b == "nilslice" || b == "(mkslice 0 0 0 0)" {
 			return fmt.Sprintf("(= (sobj %s) 0)", a)
 		}
 	case *types.Interface:
-		if a == "niliface" {
+		if a == "niliface" || a == "(mkiface 0 0)" {
 			return fmt.Sprintf("(= (itag %s) 0)", b)
 		}
-		if b == "niliface" {
+		if b == "niliface" || b == "(mkiface 0 0)" {
 			return fmt.Sprintf("(= (itag %s) 0)", a)
 		}
 	}
